@@ -1,6 +1,9 @@
 package main
 
-import "fmt"
+import (
+	"fmt"
+	"strings"
+)
 
 // Reference model: deliberately boring. One struct per instance holding the observed memory
 // cells, the counter global and closed(exitCode). The functions below mirror the guest functions
@@ -33,6 +36,75 @@ func (t *instM) close(code uint32) {
 type modelW struct {
 	A, B instM
 	NReg bool
+	X    [nXMem]instM // module X per memory shape (only G and closed(code) are used)
+	XIn  [nXMem]bool  // instantiated
+}
+
+func (w *modelW) observeX() string {
+	var p [nXMem]string
+	for i := range w.X {
+		p[i] = "-"
+		if w.XIn[i] {
+			p[i] = fmt.Sprintf("g=%d,closed=%v", w.X[i].G, w.X[i].Closed)
+		}
+	}
+	return strings.Join(p[:], " ")
+}
+
+// plain mirrors grow0 / hostnop: own effects around an instruction that changes nothing.
+func (w *modelW) plain(t *instM, k uint32) {
+	t.Pre = k
+	t.G++
+	t.Post = k
+	t.G += 100
+}
+
+// seq mirrors seq_i(k) of module X: exactly the instance whose code executes the exit is closed.
+func (w *modelW) seq(ms int, kind int, k uint32) (string, uint32) {
+	if !w.XIn[ms] {
+		if w.A.Closed || w.B.Closed {
+			return "import-missing", 0 // X imports functions of both; a closed instance is not in the registry
+		}
+		w.XIn[ms] = true
+	}
+	x := &w.X[ms]
+	first, then := seqParts(kind)
+	ret, class := w.call(x, func() uint32 {
+		x.G++
+		switch first {
+		case seqAHostNop, seqAGrow:
+			w.plain(&w.A, k)
+		case seqBGrow:
+			w.plain(&w.B, k)
+		case seqAIndirect:
+			w.direct(&w.A, KOk, k)
+		case seqBIndirect, seqBDirect:
+			w.direct(&w.B, KOk, k)
+		}
+		switch then {
+		case KProcExit0, KProcExit3:
+			code := uint32(0)
+			if then == KProcExit3 {
+				code = 3
+			}
+			x.close(code)
+			panic(mfail{fmt.Sprintf("exit:%d", code)})
+		case KClose0:
+			x.close(0)
+		case KClose7:
+			x.close(7)
+		case KPanicError:
+			panic(mfail{"panic:error"})
+		case KUnreachable:
+			panic(mfail{"trap:unreachable"})
+		}
+		x.G += 100
+		return x.G
+	})
+	if class != "ok" {
+		ret = 0
+	}
+	return class, ret
 }
 
 func (w *modelW) registry() string {
@@ -185,6 +257,8 @@ func (w *modelW) step(l letter, k uint32) (string, uint32) {
 		ret = 0
 	case ShNFnA, ShNFnB, ShNFnSelf, ShMSecA, ShMSecB, ShMSecSelf:
 		return w.namedStart(l, k)
+	case ShXOwn, ShXNone, ShXShared, ShXImported:
+		return w.seq(l.Shape-ShXOwn, l.Kind, k)
 	case ShLookup:
 		if !w.NReg {
 			return "no-module", 0
